@@ -165,8 +165,9 @@ class Verdict:
     def failure(self, cls, record, matches_asbuilt=True):
         """cls: class key of the failure; record: json-able dict for the replay file"""
         for k in self.known:
-            if k["key"] == cls and (matches_asbuilt or not k.get("needs_asbuilt", False)):
-                self.known_hit.setdefault(cls, [0, k])[0] += 1
+            hit = k["key"] == cls or (k["key"].endswith("*") and cls.startswith(k["key"][:-1]))
+            if hit and (matches_asbuilt or not k.get("needs_asbuilt", False)):
+                self.known_hit.setdefault(k["key"], [0, k])[0] += 1
                 return
         path = os.path.join(self.rdir, sanitize(cls) + "_%d.json" % len(self.violations))
         if len(self.violations) < 50:
@@ -177,8 +178,9 @@ class Verdict:
     def from_report(self, rep):
         for f in rep["failures"]:
             self.failure(f["class"], f, f.get("matches_asbuilt", True))
-        for cls in self.known_hit:
-            self.known_hit[cls][0] = rep["counters"].get("fail:" + cls, self.known_hit[cls][0])
+        for key in self.known_hit:
+            n = sum(v for c, v in rep["counters"].items() if c.startswith("fail:") and (c[5:] == key or (key.endswith("*") and c[5:].startswith(key[:-1]))))
+            self.known_hit[key][0] = n or self.known_hit[key][0]
         # failures beyond the verbatim cap still count: classes listed in counters
         listed = {f["class"] for f in rep["failures"]}
         for k, n in rep["counters"].items():
